@@ -295,7 +295,7 @@ def extra_pass(tier, kf):
         "pretty_half": {
             "engine": "llsym over the LLVM IR of vf/llsym/rust/probe_dbg.rs (derive_more::Debug expansions + src/fmt.rs DebugTuple/Padded vs std's derive and builders)",
             "shapes": PRETTY_SHAPES, "formats": PRETTY_FMTS,
-            "symbolic": "shape, format selector, field content (%d bytes over {a, b, \\n}, split between two fields), chunk split point, width and precision (0..=8)" % L,
+            "symbolic": "shape, format selector, field content (%d bytes over {a, b, \\n}, split between two fields), chunk split point (two `write_str` chunks, or - split = len + 2 - one `write_char` per character), width and precision (0..=8)" % L,
             "paths": stats.get("paths", 0), "solver_queries": stats.get("queries", 0), "solver_s": round(solver_s, 1), "instructions": stats.get("instrs", 0),
             "paths_equal": len([r for r in rets if r["code"] == 0]), "paths_differ": len([r for r in rets if r["code"] in (1, 2)]),
             "native_cross_check": {"paths": len(rets), "mismatches": mism}, "wall_s": round(time.time() - t0, 1),
